@@ -9,7 +9,6 @@ import datetime
 import os
 import re
 import subprocess
-import zoneinfo
 
 from . import common
 
@@ -29,11 +28,54 @@ def zic_compile(lines, workdir):
     return out, r.returncode, r.stdout
 
 
+def read_tzif(path):
+    """minimal TZif reader (64-bit block of a version >= 2 file, else the 32-bit block):
+    returns (transitions [(unix time, type index)], types [(utoff, isdst, abbr)])"""
+    import struct
+    data = open(path, 'rb').read()
+
+    def block(off, tsize):
+        magic, ver = data[off:off + 4], data[off + 4:off + 5]
+        if magic != b'TZif':
+            raise common.MachineryError('not a TZif file: %s' % path)
+        isutcnt, isstdcnt, leapcnt, timecnt, typecnt, charcnt = struct.unpack('>6l', data[off + 20:off + 44])
+        p = off + 44
+        fmt = '>%d%s' % (timecnt, 'q' if tsize == 8 else 'l')
+        times = struct.unpack(fmt, data[p:p + timecnt * tsize])
+        p += timecnt * tsize
+        idx = data[p:p + timecnt]
+        p += timecnt
+        types = []
+        for k in range(typecnt):
+            utoff, isdst, abbrind = struct.unpack('>lBB', data[p + 6 * k:p + 6 * k + 6])
+            types.append((utoff, isdst, abbrind))
+        p += 6 * typecnt
+        chars = data[p:p + charcnt]
+        p += charcnt + leapcnt * (tsize + 4) + isstdcnt + isutcnt
+        tt = [(u, d, chars[a:chars.index(b'\0', a)].decode('ascii')) for u, d, a in types]
+        return list(zip(times, idx)), tt, p, ver
+    trans, types, end, ver = block(0, 4)
+    if ver >= b'2':
+        trans, types, end, ver = block(end, 8)
+    return trans, types
+
+
 def _obs_zoneinfo(path, t):
-    with open(path, 'rb') as f:
-        zi = zoneinfo.ZoneInfo.from_file(f)
-    dt = (datetime.datetime(2000, 1, 1, tzinfo=datetime.timezone.utc) + datetime.timedelta(seconds=t)).astimezone(zi)
-    return [int(dt.utcoffset().total_seconds()), 1 if dt.dst() else 0, dt.tzname()]
+    """observation at instant t (seconds from 2000-01-01) read from the TZif body: the type of the last transition
+    at or before t; before the first transition the first standard-time type (the rule glibc / zdump use)"""
+    trans, types = read_tzif(path)
+    ut = t + EPOCH2000
+    cur = None
+    for when, idx in trans:
+        if when <= ut:
+            cur = idx
+        else:
+            break
+    if cur is None:
+        std = [i for i, ty in enumerate(types) if not ty[1]]
+        cur = std[0] if std else 0
+    u, d, a = types[cur]
+    return [u, 1 if d else 0, a]
 
 
 def dump(outdir, names, lo=WIN_LO, hi=WIN_HI, cut=(1998, 2052)):
